@@ -7,7 +7,11 @@ from vf.model import *
 
 POOL = ["", " ", "'", '"', "'''", "((", "))", "1...", "...", "5...1", "-", "--1", "1 2", "x y", "1114112", "99999999999999999999", "-1", "1.5", "NaN", "sNaN", "Infinity", "-inf", "é", "９", "１２", "\x00", "a\nb", " x\n  y\n z",
         "u'a'", "b'a'", "'\\N{DASH}'", "'\\U00110000'", "*", "[", "(?P<", "0", "0x", "tab", "lf", "none", "any", "\\", "%", "%d", "{0}", "DD.MM.YYYY", "count > ", "a,", ",a", "a,,b", "== 1", "x" * 300, "1E+400", "+5", " 7 ",
-        "31.02.2020", "00.00.0000", "٣", "1,5", "1.000,5", "1..5", "１.５", "is valid", "format", "__class__", "None", "True"]
+        "31.02.2020", "00.00.0000", "٣", "1,5", "1.000,5", "1..5", "１.５", "is valid", "format", "__class__", "None", "True",
+        # audit round: layouts repeating a placeholder, no-break / ideographic blanks next to a name, a carriage return before a non-ASCII character, indented second line
+        "DD.MM.DD", "hh:mm:mm", "YYYY-YYYY", "\xa0id", "id\xa0", "\u3000id", "id,\xa0name", "\xa0kind < 3", "id\r\u00e4", "1...\r\u00e4", "  1\n 2", " id", " kind < 3", "kind < 3 or nosuch > 1", "kind < 3 and exit()",
+        "x{99999999999}", "(" * 500 + "a" + ")" * 500, "\\\n kind < 3", "\\\nid"]
+GOOD_ROWS = {"delimited": ["1", "abc", "a", "1.5", "31.12.2020", "ab1", "a1", "k"], "fixed": ["12345", "abc", "        "], "excel": ["1", ""], "ods": ["1.5"]}
 
 BASE_CIDS = {
     "delimited": [["d", "format", "delimited"], ["d", "header", "1"], ["d", "item delimiter", ";"], ["d", "allowed characters", "32...126"], ["d", "encoding", "utf-8"], ["d", "line delimiter", "lf"], ["d", "quote character", '"'],
@@ -23,7 +27,7 @@ BASE_CIDS = {
 
 def unit_hostile_cid():
     def run(ctx):
-        from cutplace import interface, errors
+        from cutplace import interface, errors, validio
         known = findings.is_known("K-6a", "C10")
         escapes_known = []
         def cases():
@@ -42,19 +46,27 @@ def unit_hostile_cid():
             rows = [list(r) for r in BASE_CIDS[c[0]]]
             rows[c[1]][c[2]] = c[3]
             if len(c) > 4: rows[c[4]][c[5]] = c[6]
-            try: interface.Cid().read("cid", rows)
+            try:
+                cid = interface.Cid(); cid.read("cid", rows)
+                # a CID that loads is then used: one conforming row (of the unchanged base CID) is validated and the run closed
+                class R(validio.Reader):
+                    def _raw_rows(self): return iter([list(GOOD_ROWS[c[0]])])
+                try:
+                    with R(cid, io.StringIO(""), on_error="raise") as r:
+                        for _ in r.rows(): pass
+                except errors.DataError: pass
             except errors.InterfaceError: return None
             except OverflowError as e:
                 # K-6a is the *length* cell of an Integer field row holding an absurdly large number; an OverflowError from any other cell is a violation
                 def is_k6a(ri, ci, v): return v == "99999999999999999999" and rows[ri][0] == "f" and ci == 4 and len(rows[ri]) > 5 and rows[ri][5] == "Integer"
                 if known and (is_k6a(c[1], c[2], c[3]) or (len(c) > 4 and is_k6a(c[4], c[5], c[6]))): escapes_known.append(c); return None
                 return {"expected": "accepted or InterfaceError", "observed": "%s: %s" % (type(e).__name__, e)}
-            except Exception as e: return {"expected": "accepted or InterfaceError", "observed": "%s: %s" % (type(e).__name__, str(e)[:120])}
+            except (Exception, SystemExit) as e: return {"expected": "accepted or InterfaceError", "observed": "%s: %s" % (type(e).__name__, str(e)[:120])}
             return None
         r = sweep("C10/hostile/every cell of every CID row kind filled from the hostile pool", cases(), check, "bounded",
-                  "4 base CIDs (all formats, all field types, both checks) x every cell of every row x %d hostile values, one cell at a time (thorough: 20000 random pairs)" % len(POOL),
+                  "4 base CIDs (all formats, all field types, both checks) x every cell of every row x %d hostile values, one cell at a time (thorough: 20000 random pairs); a CID that loads then validates one row and closes the run" % len(POOL),
                   describe=lambda c: {"cid": c[0], "row": c[1] + 1, "cell": c[2] + 1, "value": c[3]} if len(c) == 4 else {"cid": c[0], "cells": [(c[1] + 1, c[2] + 1, c[3]), (c[4] + 1, c[5] + 1, c[6])]},
-                  function="interface.Cid.read", unit="C10.hostile.cid", props=["C10"])
+                  function="interface.Cid.read + validio.Reader", unit="C10.hostile.cid", props=["C10"])
         res = [r]
         # numbers beyond a C int in the cells that denote one character (chr() raises OverflowError there, not ValueError); kept out of the general
         # pool because the same numbers as an Integer *length* make create_range_from_length allocate gigabytes (the K-6a family)
@@ -117,10 +129,15 @@ def unit_hostile_data():
                     for cut in range(0, len(data), step): yield (fmt, "truncate", cut)
                     for pos in range(0, len(data), step): yield (fmt, "flip", pos)
                     yield (fmt, "garbage", 0); yield (fmt, "undecodable", 0)
+                    if fmt in ("ods", "excel"): yield (fmt, "zipdir", 0x1000); yield (fmt, "zipdir", -7); yield (fmt, "zipdir", 0x7fffffff)
             k = [0]
             def ccheck(c):
                 fmt, kind, pos = c; data = good[fmt]
-                blob = {"truncate": data[:pos], "flip": data[:pos] + bytes([data[pos] ^ 0xFF]) + data[pos + 1:] if data else b"", "garbage": b"\x00\xff\xfe" * 7, "undecodable": data[:3] + b"\xff\xfe" + data[3:]}[kind]
+                def zipdir(delta):        # the 'offset of the central directory' field of the zip end record moved: the archive is there and readable, its directory is not where it says
+                    import struct
+                    i = data.rfind(b"PK\x05\x06"); off = struct.unpack("<I", data[i + 16:i + 20])[0]
+                    return data[:i + 16] + struct.pack("<I", (off + delta) & 0xffffffff) + data[i + 20:]
+                blob = zipdir(pos) if kind == "zipdir" else {"truncate": data[:pos], "flip": data[:pos] + bytes([data[pos] ^ 0xFF]) + data[pos + 1:] if data else b"", "garbage": b"\x00\xff\xfe" * 7, "undecodable": data[:3] + b"\xff\xfe" + data[3:]}.get(kind)
                 k[0] += 1; path = wfile("c%d.%s" % (k[0], ext[fmt]), blob)
                 cid = interface.Cid(cid_paths[fmt])
                 try:
@@ -132,7 +149,7 @@ def unit_hostile_data():
                 os.unlink(path)
                 return None if rc in (0, 1) else {"expected": "exit code 0 or 1", "observed": "exit code %r" % rc}
             res.append(sweep("C10/hostile/containers truncated and bit-flipped: API raises only DataError, command line never answers 4", ccases(), ccheck, "bounded",
-                             "delimited / fixed / ods / xlsx data files truncated and with one byte flipped at ~40 offsets each (200 in thorough), garbage bytes, undecodable bytes; through validio.rows and applications.main",
+                             "delimited / fixed / ods / xlsx data files truncated and with one byte flipped at ~40 offsets each (200 in thorough), garbage bytes, undecodable bytes, zip archives whose central directory offset is wrong; through validio.rows and applications.main",
                              describe=lambda c: {"format": c[0], "fault": c[1], "offset": c[2]}, function="validio.rows / applications.main", unit="C10.hostile.data", props=["C10", "C06"]))
             # the Encoding cell of a CID against a data file read by path: names that Python knows as codecs but that are no text encodings,
             # unknown names, and encodings the data is not written in
